@@ -52,3 +52,12 @@ pub fn precq(line: &str) -> String {
     v::vclock_disable();
     out
 }
+
+/// `a b f` through `Timestamp::duration_since` (the dispatcher).
+pub fn tscd(line: &str) -> String {
+    let t = toks(line);
+    let a: u64 = t[0].parse().unwrap();
+    let b: u64 = t[1].parse().unwrap();
+    let f: u64 = t[2].parse().unwrap();
+    format!("ok {}", v::timestamp_duration_since(b, a, f))
+}
